@@ -7,6 +7,8 @@
   arbitrary called groups, arbitrary programs, states and fuel.
 -/
 import Props.Lemmas.FlowRunner
+import Props.Lemmas.C02_Origin
+import Props.Lemmas.C11_Pype
 
 namespace Pypyr.C02
 open Pypyr Pypyr.Flow
@@ -15,7 +17,7 @@ open Pypyr Pypyr.Flow
 
 /-- retry: an attempt that ends in an instruction ends the retry loop at once with that
     instruction and the state of that moment — no further attempt, no sleep. -/
-theorem retry_never_reattempts_signal (cfg : RetryCfg) (fr : Frame) (inner : Frame → Body) (max : Option Nat)
+theorem retry_never_reattempts_signal (cfg : RetryCfg) (fr : Frame) (inner : Frame → Body) (max : Option Int)
     (fuel k : Nat) (bo : BackoffState) (s s1 : St) (σ : Res)
     (hi : inner { fr with retryC := some k } { s with ctx := Ctx.set s.ctx "retryCounter" (.int k) } = (s1, σ))
     (hσ : σ.isSignal = true) :
@@ -53,11 +55,15 @@ theorem invoke_passes_signal (fr : Frame) (body : Body) (callee : CofCfg → Bod
   invokeStep_noncall fr body callee s s1 σ hb (by intro c hc; subst hc; simp [Res.isSignal] at hσ)
 
 /-- invoke: an instruction coming **out of the groups a call step ran** leaves the calling step as that
-    instruction — not wrapped as an error (the clause repaired by fix e55e305). -/
+    instruction — not wrapped as an error (the clause repaired by fix e55e305). (`hco`: the raw
+    configuration under the instruction's key is truthy - for `call: ''` / `call: []` the `assert` in the
+    `finally` of `invoke_step` fails; the groups such a configuration names never end in an instruction,
+    see `falsy_call_config_never_signals`.) -/
 theorem invoke_call_passes_signal (fr : Frame) (body : Body) (callee : CofCfg → Body) (s s1 s2 : St)
-    (c : CofCfg) (σ : Res) (hb : body s = (s1, .call c)) (hc : callee c s1 = (s2, σ)) (hσ : σ.isSignal = true) :
+    (c : CofCfg) (σ : Res) (hb : body s = (s1, .call c)) (hc : callee c s1 = (s2, σ)) (hσ : σ.isSignal = true)
+    (hco : c.original.truthy = true) :
     invokeStep fr body callee s = (resetCounters fr c s2, σ) := by
-  rw [invokeStep_call fr body callee s s1 s2 c σ hb hc]
+  rw [invokeStep_call fr body callee s s1 s2 c σ hb hc hco]
   cases σ <;> simp_all [Res.isSignal]
 
 /-- **Whole step, any decorator stack**: whenever a step returns an instruction, that very instruction
@@ -69,6 +75,110 @@ theorem decorated_step_signal (d : StepDef) (body : Body) (callee : CofCfg → B
     (∃ s0, body s0 = (s', σ)) ∨
     (∃ fr s0 s1 s2 c, body s0 = (s1, .call c) ∧ callee c s1 = (s2, σ) ∧ s' = resetCounters fr c s2) :=
   runStepWith_signal_origin d body callee fuel s s' σ h hσ
+
+/-- **… with history: what the step did before the signal, and that it did nothing after it.**
+    `decorated_step_signal` alone leaves the state `s0` in which the signalling body invocation started
+    unconstrained. Here, for every relation `R` that is global in the sense of `Props/Lemmas/FlowGlobal.lean`
+    and preserved by the module body and by the called groups: `R s s0` - and, when the signal came out of
+    called groups, `R s s2` for the state `s2` in which they ended. The step's final state is the body's
+    (`s'`), respectively `s2` with the caller's counters and call config written back - so whatever `R`
+    says about `s ↦ s0` (`s ↦ s2`) is ALL that happened: nothing after the signal. -/
+theorem decorated_step_signal_history {R : St → St → Prop} (G : GlobalRel R) (d : StepDef) (body : Body)
+    (callee : CofCfg → Body) (fuel : Nat) (hb : Pres R body) (hc : ∀ c, Pres R (callee c))
+    (s s' : St) (σ : Res) (h : runStepWith d body callee fuel s = (s', σ)) (hσ : σ.isSignal = true) :
+    (∃ s0, R s s0 ∧ body s0 = (s', σ)) ∨
+    (∃ fr s0 s1 s2 c, R s s0 ∧ body s0 = (s1, .call c) ∧ callee c s1 = (s2, σ) ∧ s' = resetCounters fr c s2 ∧
+      R s s2 ∧ c.original.truthy = true) :=
+  runStepWith_signal_origin_rel G d body callee fuel hb hc s s' σ h hσ
+
+/-- … instantiated with `GrewRel` (trace, sleeps, ghost log of escapes: only appended to; exception counter:
+    only counted up; pipeline stack: untouched): **the state in which a decorated step returns a signal has
+    exactly the trace, the sleeps, the escapes, the exception counter and the stack of the moment the signal
+    was produced** (`sσ`: the state the module body - or the groups it called - returned with σ), and that
+    moment's records extend those the step was entered with. In particular: no sleep, no event, no escape
+    (hence no `runErrors` entry, `C07.runErrors_are_the_escapes`) was added after the signal. -/
+theorem decorated_step_signal_state (d : StepDef) (body : Body) (callee : CofCfg → Body) (fuel : Nat)
+    (hb : Pres GrewRel body) (hc : ∀ c, Pres GrewRel (callee c))
+    (s s' : St) (σ : Res) (h : runStepWith d body callee fuel s = (s', σ)) (hσ : σ.isSignal = true) :
+    ∃ sσ, GrewRel s sσ ∧
+      s'.trace = sσ.trace ∧ s'.sleeps = sσ.sleeps ∧ s'.escapes = sσ.escapes ∧ s'.nextExc = sσ.nextExc ∧
+      s'.stack = sσ.stack ∧
+      ((∃ s0, body s0 = (sσ, σ) ∧ s' = sσ) ∨
+       (∃ fr s0 s1 c, body s0 = (s1, .call c) ∧ callee c s1 = (sσ, σ) ∧ s' = resetCounters fr c sσ)) := by
+  rcases decorated_step_signal_history grewRel_global d body callee fuel hb hc s s' σ h hσ with
+    ⟨s0, hr, hb'⟩ | ⟨fr, s0, s1, s2, c, _, hb', hc', he, hr2, _⟩
+  · have hg : GrewRel s0 s' := by have := hb s0; rw [hb'] at this; exact this
+    exact ⟨s', grewRel_global.trans hr hg, rfl, rfl, rfl, rfl, rfl, .inl ⟨s0, hb', rfl⟩⟩
+  · refine ⟨s2, hr2, ?_, ?_, ?_, ?_, ?_, .inr ⟨fr, s0, s1, c, hb', hc', he⟩⟩ <;> rw [he] <;> rfl
+
+/-- the hypotheses of `decorated_step_signal_state` for the three stop steps: their bodies change nothing. -/
+theorem stop_bodies_preserve (σ : Res) : Pres GrewRel (fun s => (s, σ)) := fun s => grewRel_global.refl s
+
+/-- … and for the real callee of every step, the complete interpreter `run_step_groups`: for every program,
+    pipeline and fuel. -/
+theorem groups_callee_preserves (fuel : Nat) (prog : Program) (pipe : String) :
+    ∀ c : CofCfg, Pres GrewRel (fun s' => runGroups fuel prog (s'.stack.head?.getD pipe) c.groups c.success c.failure s') :=
+  fun c s' => (allPres grewRel_global prog fuel).2.2.2.2.2.1 _ _ _ _ s'
+
+/-- **The two falsy call configurations never produce a signal**: the groups `call: ''` names (`['']`) and
+    those `call: []` names (`[]`), run without a failure handler (a string / list configuration has none),
+    always end in an error - `''` is no group name, an empty list is "no groups" - (or, a model artefact,
+    out of fuel). So the side condition `hco` of `invoke_call_passes_signal` excludes no signal at all. -/
+theorem falsy_call_config_never_signals (fuel : Nat) (prog : Program) (pipe : String) (su : Option String) (s : St) :
+    (runGroups fuel prog pipe [] su none s).2.isSignal = false ∧
+    (runGroups fuel prog pipe [""] su none s).2.isSignal = false := by
+  constructor
+  · cases fuel with
+    | zero => unfold runGroups; rfl
+    | succ n => unfold runGroups; rfl
+  · cases fuel with
+    | zero => unfold runGroups; rfl
+    | succ n =>
+      rw [runGroups_eq]
+      have hm : (mainPhase n prog pipe [""] su s).2.isErr = true ∨ (mainPhase n prog pipe [""] su s).2 = .outOfFuel := by
+        unfold mainPhase
+        cases n with
+        | zero => right; unfold runGroupList; rfl
+        | succ m =>
+          rw [runGroupList_cons]
+          cases m with
+          | zero => right; unfold runStepGroup; rfl
+          | succ k => left; rw [runStepGroup_empty_name]; rfl
+      generalize mainPhase n prog pipe [""] su s = p at hm
+      obtain ⟨s1, r⟩ := p
+      cases r <;> simp_all [Res.isErr, Res.isSignal, hasFailureGroup]
+
+/-- what `pypyr.steps.call` puts into the instruction for those two configurations (the raw configuration
+    is what the context holds under `call`; it formats to itself). -/
+theorem falsy_call_configs (s : St) :
+    (Ctx.get? s.ctx "call" = some (.str "") →
+      cofStep "call" true s = (s, .call { groups := [""], success := none, failure := none, key := "call",
+                                           original := .str "" })) ∧
+    (Ctx.get? s.ctx "call" = some (.list []) →
+      cofStep "call" true s = (s, .call { groups := [], success := none, failure := none, key := "call",
+                                           original := .list [] })) := by
+  have hne : ∀ v, Ctx.get? s.ctx "call" = some v → s.ctx.isEmpty = false := by
+    intro v h
+    cases hc : s.ctx with
+    | nil => rw [hc] at h; simp [Ctx.get?] at h
+    | cons _ _ => rfl
+  constructor
+  · intro h
+    have h1 : fmtAtKey s (.str "") = .ok (.str "") := by
+      unfold fmtAtKey fmtV fmtVal
+      have : fmtIter FMT_FUEL s.ctx false (.str "") = .ok (.str "") := rfl
+      rw [this]
+    unfold cofStep assertKeyHasValue
+    simp only [hne _ h, h, h1, Bool.false_eq_true, if_false]
+    rfl
+  · intro h
+    have h1 : fmtAtKey s (.list []) = .ok (.list []) := by
+      unfold fmtAtKey fmtV fmtVal
+      have : fmtIter FMT_FUEL s.ctx false (.list []) = .ok (.list []) := rfl
+      rw [this]
+    unfold cofStep assertKeyHasValue
+    simp only [hne _ h, h, h1, Bool.false_eq_true, if_false]
+    rfl
 
 /-- writing the counters back touches only `whileCounter`, `i`, `retryCounter` and the call key:
     in particular it never creates a `runErrors` entry. -/
@@ -99,14 +209,14 @@ theorem resetCounters_keeps_runErrors (fr : Frame) (c : CofCfg) (s : St)
 /-- `stopstepgroup` ends only the step-group it was raised in: the group call returns normally, so the
     next requested group and the success handler still run. -/
 theorem stopGroup_ends_only_its_group (fuel : Nat) (prog : Program) (pipe g : String) (s s1 : St)
-    (h : runSteps fuel prog pipe (groupSteps prog pipe g) s = (s1, .stopGroup)) :
+    (h : runSteps fuel prog pipe (groupSteps prog pipe g) s = (s1, .stopGroup)) (hg0 : g ≠ "") :
     runStepGroup (fuel + 1) prog pipe g false s = (s1, .ok) := by
-  rw [runStepGroup_of_run fuel prog pipe g false s s1 _ h (by simp) (by simp)]; rfl
+  rw [runStepGroup_of_run fuel prog pipe g false s s1 _ h (by simp) (by simp) hg0]; rfl
 
 theorem stopGroup_next_group_runs (fuel : Nat) (prog : Program) (pipe g : String) (rest : List String) (s s1 : St)
-    (h : runSteps fuel prog pipe (groupSteps prog pipe g) s = (s1, .stopGroup)) :
+    (h : runSteps fuel prog pipe (groupSteps prog pipe g) s = (s1, .stopGroup)) (hg0 : g ≠ "") :
     runGroupList (fuel + 2) prog pipe (g :: rest) s = runGroupList (fuel + 1) prog pipe rest s1 := by
-  rw [runGroupList_cons, stopGroup_ends_only_its_group fuel prog pipe g s s1 h]
+  rw [runGroupList_cons, stopGroup_ends_only_its_group fuel prog pipe g s s1 h hg0]
 
 /-- in a failure handler the same instruction is what turns the failure into a quiet end. -/
 theorem stopGroup_in_failure_handler_is_quiet_end (fuel : Nat) (prog : Program) (pipe g : String) (gs : List String)
@@ -128,33 +238,142 @@ theorem stop_skips_failure_handler (fuel : Nat) (prog : Program) (pipe g : Strin
 /-- `stoppipeline` ends only the current pipeline: whoever ran it sees a normal completion,
     and its entry is gone from the pipeline stack. -/
 theorem stopPipeline_ends_only_its_pipeline (fuel : Nat) (prog : Program) (pi : PipeInst) (pd : PipeDef)
-    (s s1 s2 : St) (hp : prog.find? pi.name = some pd)
+    (s s1 s2 : St) (hp : prog.find? pi.name = some pd) (hgb : pi.groupsBad = false)
     (hprep : prepareContext pd pi { s with stack := pi.name :: s.stack } = (s1, .ok))
     (hg : runGroups fuel prog pi.name (effectiveGroups pi).1 (effectiveGroups pi).2.1 (effectiveGroups pi).2.2 s1
             = (s2, .stopPipeline)) :
     runPipeline (fuel + 1) prog pi s = ({ s2 with stack := s2.stack.drop 1 }, .ok) := by
-  rw [runPipeline_eq fuel prog pi pd s hp]
+  rw [runPipeline_eq fuel prog pi pd s hp hgb]
   simp only [hprep, hg]
 
 /-- … also when it is issued by the failure handler that runs after a failed context parser
     (the case repaired by fix 89ea24a). -/
 theorem stopPipeline_from_parser_failure_handler (fuel : Nat) (prog : Program) (pi : PipeInst) (pd : PipeDef)
-    (s s1 s2 : St) (e : ExcV) (hd : Bool) (hp : prog.find? pi.name = some pd)
+    (s s1 s2 : St) (e : ExcV) (hd : Bool) (hp : prog.find? pi.name = some pd) (hgb : pi.groupsBad = false)
     (hprep : prepareContext pd pi { s with stack := pi.name :: s.stack } = (s1, .err e hd))
     (hh : runFailureGroup fuel prog pi.name (effectiveGroups pi).2.2 s1 = (s2, .stopPipeline)) :
     runPipeline (fuel + 1) prog pi s = ({ s2 with stack := s2.stack.drop 1 }, .ok) := by
-  rw [runPipeline_eq fuel prog pi pd s hp]
+  rw [runPipeline_eq fuel prog pi pd s hp hgb]
   simp only [hprep, hh]
 
 /-- `stop` is handed on unchanged by the pipeline (only the root turns it into success). -/
 theorem stop_leaves_pipeline (fuel : Nat) (prog : Program) (pi : PipeInst) (pd : PipeDef)
-    (s s1 s2 : St) (hp : prog.find? pi.name = some pd)
+    (s s1 s2 : St) (hp : prog.find? pi.name = some pd) (hgb : pi.groupsBad = false)
     (hprep : prepareContext pd pi { s with stack := pi.name :: s.stack } = (s1, .ok))
     (hg : runGroups fuel prog pi.name (effectiveGroups pi).1 (effectiveGroups pi).2.1 (effectiveGroups pi).2.2 s1
             = (s2, .stop)) :
     runPipeline (fuel + 1) prog pi s = ({ s2 with stack := s2.stack.drop 1 }, .stop) := by
-  rw [runPipeline_eq fuel prog pi pd s hp]
+  rw [runPipeline_eq fuel prog pi pd s hp hgb]
   simp only [hprep, hg]
+
+/-! ## jump and call never reach a failure handler, a pipeline, the caller -/
+
+/-- **No `Call` ever leaves a step** (it is consumed by `invoke_step`), whatever the decorators, provided
+    the callee never hands one back - which the real callee never does (`no_call_no_jump_escapes`). -/
+theorem step_never_returns_call (d : StepDef) (body : Body) (callee : CofCfg → Body) (fuel : Nat)
+    (hc : ∀ c s c', (callee c s).2 ≠ .call c') (s : St) (c' : CofCfg) :
+    (runStepWith d body callee fuel s).2 ≠ .call c' :=
+  runStepWith_ne_call d body callee fuel hc s c'
+
+/-- **Result classes, for every program, every fuel, every state**: a step and a step list never return a
+    `Call`; a step-group, the loop over the requested groups, the failure handler, `run_step_groups`, a
+    pipeline and the pype step never return a `Call` NOR a `Jump` (the `Jump` is consumed by the step-group
+    it was raised in). So neither instruction can ever be the "error" `run_step_groups` reacts to with a
+    failure handler, nor reach a parent pipeline or the API caller. By mutual induction on the fuel. -/
+theorem no_call_no_jump_escapes (prog : Program) (fuel : Nat) :
+    (∀ pipe d s c, (runStep fuel prog pipe d s).2 ≠ .call c) ∧
+    (∀ pipe ds s c, (runSteps fuel prog pipe ds s).2 ≠ .call c) ∧
+    (∀ pipe g rs s, NoCJ (runStepGroup fuel prog pipe g rs s).2) ∧
+    (∀ pipe gs s, NoCJ (runGroupList fuel prog pipe gs s).2) ∧
+    (∀ pipe g s, NoCJ (runFailureGroup fuel prog pipe g s).2) ∧
+    (∀ pipe gs su fa s, NoCJ (runGroups fuel prog pipe gs su fa s).2) ∧
+    (∀ pi s, NoCJ (runPipeline fuel prog pi s).2) ∧
+    (∀ s, NoCJ (pypeBody fuel prog s).2) :=
+  allNoCJ prog fuel
+
+theorem runStepGroup_ne_jump (fuel : Nat) (prog : Program) (pipe g : String) (rs : Bool) (s : St) (c : CofCfg) :
+    (runStepGroup fuel prog pipe g rs s).2 ≠ .jump c := ((allNoCJ prog fuel).2.2.1 pipe g rs s).2 c
+
+theorem runGroups_ne_jump_call (fuel : Nat) (prog : Program) (pipe : String) (gs : List String)
+    (su fa : Option String) (s : St) (c : CofCfg) :
+    (runGroups fuel prog pipe gs su fa s).2 ≠ .jump c ∧ (runGroups fuel prog pipe gs su fa s).2 ≠ .call c :=
+  ⟨((allNoCJ prog fuel).2.2.2.2.2.1 pipe gs su fa s).2 c, ((allNoCJ prog fuel).2.2.2.2.2.1 pipe gs su fa s).1 c⟩
+
+theorem runPipeline_ne_jump_call (fuel : Nat) (prog : Program) (pi : PipeInst) (s : St) (c : CofCfg) :
+    (runPipeline fuel prog pi s).2 ≠ .jump c ∧ (runPipeline fuel prog pi s).2 ≠ .call c :=
+  ⟨((allNoCJ prog fuel).2.2.2.2.2.2.1 pi s).2 c, ((allNoCJ prog fuel).2.2.2.2.2.2.1 pi s).1 c⟩
+
+/-- the API caller never sees a jump or a call either. -/
+theorem runRoot_ne_jump_call (fuel : Nat) (prog : Program) (pi : PipeInst) (s : St) (c : CofCfg) :
+    (runRoot fuel prog pi s).2 ≠ .jump c ∧ (runRoot fuel prog pi s).2 ≠ .call c := by
+  have h := runPipeline_ne_jump_call fuel prog pi s c
+  rw [runRoot_eq]
+  generalize runPipeline fuel prog pi s = p at h
+  obtain ⟨s1, r⟩ := p
+  cases r <;> simp_all
+
+/-! ## across pipelines (pype): StopPipeline ends only the child, Stop every parent -/
+
+/-- **`stoppipeline` in a pyped child: the parent carries on with its next step.** The child pipeline turns
+    the StopPipeline raised in its groups into a normal end (`stopPipeline_ends_only_its_pipeline`); the
+    pype step that ran it therefore completes normally (no `out` to copy, or the copy succeeds) - and
+    `run_pipeline_steps` of the parent goes on with the step after the pype step. -/
+theorem child_stopPipeline_parent_carries_on (fuel : Nat) (prog : Program) (s : St) (a : PypeArgs)
+    (ha : getPypeArgs s = .ok a) (ho : a.out = none)
+    (hend : (if a.useParent then runPipeline fuel prog (C11.pypeInst a) (C11.mergeArgs a s)
+             else runPipeline fuel prog (C11.pypeInst a) (C11.childStart a s)).2 = .ok) :
+    (pypeBody (fuel + 1) prog s).2 = .ok := by
+  rw [C11.pypeBody_eq, ha]
+  simp only [C11.pypeWith]
+  cases hu : a.useParent with
+  | true =>
+    rw [hu] at hend
+    simp only [if_true] at hend ⊢
+    unfold C11.pypeShared
+    generalize runPipeline fuel prog (C11.pypeInst a) (C11.mergeArgs a s) = p at hend
+    obtain ⟨s1, r⟩ := p
+    simp only [] at hend; subst hend; rfl
+  | false =>
+    rw [hu] at hend
+    simp only [Bool.false_eq_true, if_false] at hend ⊢
+    generalize hp : runPipeline fuel prog (C11.pypeInst a) (C11.childStart a s) = p at hend
+    obtain ⟨c1, r⟩ := p
+    simp only [] at hend; subst hend
+    rw [C11.pypeOwn_ok_noout a _ s c1 hp ho]; rfl
+
+/-- **`stop` in a pyped child ends every parent**: the child pipeline hands the Stop on
+    (`stop_leaves_pipeline`), the pype step hands it on (it is no error: `raiseError` has no say, nothing is
+    copied out), and so does every layer above it (`decorated` layers: `swallow_never_suppresses_signal` …,
+    the group runner: `stop_skips_failure_handler`, the parent pipeline: `stop_leaves_pipeline`) up to the
+    root, which reports success (`root_reports_success`). -/
+theorem child_stop_leaves_pype_step (fuel : Nat) (prog : Program) (s : St) (a : PypeArgs)
+    (ha : getPypeArgs s = .ok a)
+    (hend : (if a.useParent then runPipeline fuel prog (C11.pypeInst a) (C11.mergeArgs a s)
+             else runPipeline fuel prog (C11.pypeInst a) (C11.childStart a s)).2 = .stop) :
+    (pypeBody (fuel + 1) prog s).2 = .stop := by
+  rw [C11.pypeBody_eq, ha]
+  simp only [C11.pypeWith]
+  cases hu : a.useParent with
+  | true =>
+    rw [hu] at hend
+    simp only [if_true] at hend ⊢
+    unfold C11.pypeShared
+    generalize runPipeline fuel prog (C11.pypeInst a) (C11.mergeArgs a s) = p at hend
+    obtain ⟨s1, r⟩ := p
+    simp only [] at hend; subst hend; rfl
+  | false =>
+    rw [hu] at hend
+    simp only [Bool.false_eq_true, if_false] at hend ⊢
+    generalize hp : runPipeline fuel prog (C11.pypeInst a) (C11.childStart a s) = p at hend
+    obtain ⟨c1, r⟩ := p
+    simp only [] at hend; subst hend
+    rw [C11.pypeOwn_nonok a _ s c1 .stop hp (by simp)]; rfl
+
+/-- a pipeline never hands a StopPipeline to whoever ran it, a pype step never to its parent
+    (`C11.stopPipeline_never_leaves_a_pipeline`, restated here). -/
+theorem stopPipeline_never_reaches_a_parent (fuel : Nat) (prog : Program) :
+    (∀ pi s, (runPipeline fuel prog pi s).2 ≠ .stopPipeline) ∧ (∀ s, (pypeBody fuel prog s).2 ≠ .stopPipeline) :=
+  ⟨C11.runPipeline_ne_stopPipeline fuel prog, C11.pypeBody_ne_stopPipeline fuel prog⟩
 
 /-- the run reports success to its caller for every Stop-family instruction that reaches the root. -/
 theorem root_reports_success (fuel : Nat) (prog : Program) (pi : PipeInst) (s s1 : St) (σ : Res)
